@@ -763,8 +763,7 @@ func OrExpr(query *Query, current Map, expr *sqlparser.OrExpr, opts ...ExprOptio
 }
 
 func ComparisonExpr(query *Query, current Map, expr *sqlparser.ComparisonExpr, opts ...ExprOption) (bool, error) {
-	current["<-"] = query.data
-	defer delete(current, "<-")
+	current = BackwardNavigation(query, current)
 	left, err := Expr(query, current, expr.Left, opts...)
 	if err != nil {
 		return false, err
@@ -1304,11 +1303,7 @@ func SelectExpr(query *Query, current Map, expr *sqlparser.SelectExprs, opts ...
 }
 
 func SubqueryExpr(query *Query, current Map, expr *sqlparser.Subquery, opts ...ExprOption) (any, error) {
-	// Backward Navigation
-	if _, ok := current["<-"]; !ok {
-		current["<-"] = query.data
-		defer delete(current, "<-")
-	}
+	current = BackwardNavigation(query, current)
 	subQuery, err := Prepare(current, expr.Select, query.options)
 	if err != nil {
 		return nil, err
@@ -1324,6 +1319,23 @@ func SubqueryExpr(query *Query, current Map, expr *sqlparser.Subquery, opts ...E
 		query.wg.Done()
 	}()
 	return rs, nil
+}
+
+// Backward Navigation
+//
+// Makes the whole document reachable from the current row under the `<-` key.
+// The row belongs to the caller's document (which other queries may be reading
+// at the same time), so the key is added to a shallow copy of the row
+func BackwardNavigation(query *Query, current Map) Map {
+	if _, ok := current["<-"]; ok {
+		return current
+	}
+	scoped := make(Map, len(current)+1)
+	for key, value := range current {
+		scoped[key] = value
+	}
+	scoped["<-"] = query.data
+	return scoped
 }
 
 func CaseExpr(query *Query, current Map, expr *sqlparser.CaseExpr, opts ...ExprOption) (any, error) {
@@ -1350,11 +1362,7 @@ func CaseExpr(query *Query, current Map, expr *sqlparser.CaseExpr, opts ...ExprO
 // The existing Exist function is inefficient as it does not break when
 // it finds the first value
 func ExistExpr(query *Query, current Map, expr *sqlparser.ExistsExpr, opts ...ExprOption) (bool, error) {
-	// Backward Navigation
-	if _, ok := current["<-"]; !ok {
-		current["<-"] = query.data
-		defer delete(current, "<-")
-	}
+	current = BackwardNavigation(query, current)
 	q, err := Prepare(current, expr.Subquery.Select, query.options)
 	if err != nil {
 		return false, err
